@@ -58,14 +58,14 @@ COMMON_ASSUME = ['the Lean model is hand-written; it is tied to the Rust source 
 PROPS = {
     'C01': dict(
         extra_modules=['GraphrsModel.Props.Core'],
-        gens=[('store', 'general', 4000, 60000, 14), ('store', 'big', 300, 5000, 0)],
+        gens=[('store', 'general', 4000, 60000, 14), ('store', 'big', 300, 5000, 0), ('store', 'huge', 25, 400, 0)],
         spec_fields=[r'res', r'nodes', r'edges'],
         model_fields=[r'res', r'nodes', r'edges', r'snap\..*', r'poison', r'agree\.wf'],
         nontrivial=store_nontrivial, hist=store_hist, rule=STORE_RULE, assumptions=COMMON_ASSUME,
     ),
     'C02': dict(
         extra_modules=['GraphrsModel.Props.Core'],
-        gens=[('store', 'general', 3000, 40000, 12), ('store', 'big', 150, 3000, 0)],
+        gens=[('store', 'general', 3000, 40000, 12), ('store', 'big', 150, 3000, 0), ('store', 'huge', 20, 300, 0)],
         spec_fields=[r'nodes', r'edges', r'node', r'idx', r'byidx', r'hasnodes', r'ge', r'ges', r'efn', r'efns', r'ien',
                      r'iens', r'oen', r'oens', r'nb', r'sn', r'pn', r'son', r'smap', r'pmap', r'bfs', r'ehw'],
         model_fields=STORE_MODEL_ALL,
@@ -73,7 +73,7 @@ PROPS = {
     ),
     'C03': dict(
         extra_modules=['GraphrsModel.Props.Core', 'GraphrsModel.Props.C03Rows'],
-        gens=[('store', 'weights', 4000, 60000, 12), ('store', 'big', 150, 3000, 0)],
+        gens=[('store', 'weights', 4000, 60000, 12), ('store', 'big', 150, 3000, 0), ('store', 'huge', 20, 300, 0)],
         spec_fields=[r'travs', r'travp', r'edges'],
         model_fields=[r'travs', r'travp', r'edges', r'snap\.successors_vec', r'snap\.predecessors_vec', r'poison', r'agree\.wf'],
         nontrivial=store_nontrivial, hist=store_hist, rule=STORE_RULE + '; profile "weights": 55% repeated pairs, '
@@ -82,7 +82,7 @@ PROPS = {
     'C09': dict(
         extra_modules=['GraphrsModel.Props.C09Model', 'GraphrsModel.Props.C12Weighted', 'GraphrsModel.Props.C09Rest', 'GraphrsModel.Props.FormulasC09'],
         translators=['formulas'],
-        gens=[('store', 'degrees', 3000, 40000, 12), ('store', 'big', 150, 3000, 0)],
+        gens=[('store', 'degrees', 3000, 40000, 12), ('store', 'big', 150, 3000, 0), ('store', 'huge', 20, 300, 0)],
         spec_fields=[r'cnt', r'deg', r'indeg', r'outdeg', r'wdeg', r'windeg', r'woutdeg', r'degall', r'indegall',
                      r'outdegall', r'wdegall', r'windegall', r'woutdegall', r'dens:q', r'dc:q', r'mat'],
         model_fields=[r'cnt', r'deg', r'indeg', r'outdeg', r'wdeg', r'windeg', r'woutdeg', r'degall', r'indegall',
@@ -93,7 +93,7 @@ PROPS = {
     ),
     'C15': dict(
         extra_modules=['GraphrsModel.Props.Core'],
-        gens=[('store', 'general', 3000, 40000, 12), ('store', 'big', 150, 3000, 0)],
+        gens=[('store', 'general', 3000, 40000, 12), ('store', 'big', 150, 3000, 0), ('store', 'huge', 20, 300, 0)],
         spec_fields=[r'sub\d+', r'rev', r'setw', r'single'],
         model_fields=[r'sub\d+', r'rev', r'setw', r'single', r'edges', r'nodes', r'agree\.wfderived'],
         impl_checks=[('srcsame', '1')],
@@ -203,7 +203,7 @@ PROPS.update({
 PROPS.update({
     'C10': dict(
         extra_modules=['GraphrsModel.Props.C10Model', 'GraphrsModel.Props.C10EqualSize'],
-        gens=[('comp', 'small', 2500, 40000, 10), ('comp', 'small', 150, 3000, 24)],
+        gens=[('comp', 'small', 2500, 40000, 10), ('comp', 'small', 150, 3000, 24), ('comp', 'small', 10, 150, 40)],
         spec_fields=[r'ok\.cc', r'ok\.wcc', r'ok\.scc', r'ok\.ncc', r'ok\.num', r'ok\.bfs', r'ok\.eq'],
         model_fields=[r'build', r'cc', r'wcc', r'scc', r'ncc', r'num', r'eq'],
         nontrivial=lambda req, I: any(',' in I.get(f, '') for f in ('cc', 'wcc', 'scc')),
@@ -221,7 +221,7 @@ PROPS.update({
     'C11': dict(
         extra_modules=['GraphrsModel.Props.C11Model', 'GraphrsModel.Props.C11Weighted', 'GraphrsModel.Props.C11GenDeg', 'GraphrsModel.Props.FormulasC11'],
         translators=['formulas'],
-        gens=[('clu', 'small', 2500, 40000, 7), ('clu', 'small', 100, 2000, 16)],
+        gens=[('clu', 'small', 2500, 40000, 7), ('clu', 'small', 100, 2000, 16), ('clu', 'small', 8, 120, 30)],
         spec_fields=[r'tri', r'triS', r'gd', r'gdS', r'trans:q', r'clu:q', r'cluS:q', r'wclu:b', r'wcluS:b', r'avg1:b', r'avg0:b',
                      r'avgS:b', r'sq:q', r'sqS:q', r'ok\.unit'],
         model_fields=[r'build', r'tri', r'triS', r'gd', r'gdS', r'trans:q', r'clu:q', r'cluS:q', r'wclu:b', r'wcluS:b', r'avg1:b',
@@ -247,7 +247,7 @@ PROPS.update({
     'C12': dict(
         extra_modules=['GraphrsModel.Props.C09Model', 'GraphrsModel.Props.C12Weighted', 'GraphrsModel.Props.FormulasC12'],
         translators=['formulas'],
-        gens=[('mod', 'small', 3000, 50000, 7), ('mod', 'small', 150, 3000, 18)],
+        gens=[('mod', 'small', 3000, 50000, 7), ('mod', 'small', 150, 3000, 18), ('mod', 'small', 20, 300, 50)],
         spec_fields=[r'isp', r'mod:q'], model_fields=[r'build', r'isp', r'mod:q'], impl_checks=[('defaultres', '1')],
         nontrivial=lambda req, I: I.get('isp') == '1' and I.get('mod:q') not in ('nan', None),
         hist=lambda req, I: graph_hist(req, I) + ['isp.' + I.get('isp', '?'), 'mod.' + ('E6' if I.get('mod:q') == 'E6' else 'value')],
@@ -259,7 +259,7 @@ PROPS.update({
     'C13': dict(
         extra_modules=['GraphrsModel.Props.C13Model', 'GraphrsModel.Props.C13Termination', 'GraphrsModel.Props.C13TerminationFull', 'GraphrsModel.Props.C13Monotone', 'GraphrsModel.Props.FormulasC13'],
         translators=['formulas'],
-        gens=[('louv', 'random', 1500, 25000, 9), ('louv', 'ties', 500, 8000, 10), ('louv', 'strand', 1500, 25000, 6), ('louv', 'random', 100, 2000, 20)],
+        gens=[('louv', 'random', 1500, 25000, 9), ('louv', 'ties', 500, 8000, 10), ('louv', 'strand', 1500, 25000, 6), ('louv', 'random', 100, 2000, 20), ('louv', 'random', 8, 120, 45)],
         spec_fields=[r'ok\.levels', r'ok\.nested', r'ok\.monotone', r'ok\.last'], model_fields=[r'build', r'parts'],
         nontrivial=lambda req, I: ',' in I.get('parts', ''),
         hist=lambda req, I: graph_hist(req, I) + ['levels.%d' % len(I.get('parts', '').split())],
@@ -388,18 +388,18 @@ def xml_hist(req, I):
 
 PROPS.update({
     'C14': dict(
-        gens=[('xml', 'roundtrip', 1500, 25000, 6), ('esc', 'names', 1500, 30000, 0), ('esc', 'entities', 1500, 30000, 0)],
+        gens=[('xml', 'roundtrip', 1500, 25000, 6), ('esc', 'names', 1500, 30000, 0), ('esc', 'entities', 1500, 30000, 0), ('xmlbig', '-', 5, 60, 0)],
         spec_fields=[r'rnodes', r'redges', r'rdir', r'rt', r'attr'],
         model_fields=[r'rnodes', r'redges', r'rdir', r'agree\.doc', r'esc', r'un', r'rt', r'attr'],
-        impl_checks=[('filesame', '1')],
-        nontrivial=lambda req, I: (I.get('esc', '.') != '.') if req.startswith('esc') else
+        impl_checks=[('filesame', '1'), ('fileread', '1'), ('bigfile', '1')],
+        nontrivial=lambda req, I: True if req.startswith('xmlbig') else (I.get('esc', '.') != '.') if req.startswith('esc') else
                                   (I.get('redges', '.') not in ('.', '') and not I.get('redges', '').startswith('E')),
-        hist=lambda req, I: esc_hist(req, I) if req.startswith('esc') else xml_hist(req, I),
+        hist=lambda req, I: ['family.xmlbig'] if req.startswith('xmlbig') else esc_hist(req, I) if req.startswith('esc') else xml_hist(req, I),
         extra_modules=['GraphrsModel.Props.C14Escape', 'GraphrsModel.Props.C14Full'],
         rule='random graphs of all 8 kinds (0..6 nodes) over string names built from XML-special characters, spaces, entity-looking text, '
              'non-ASCII and astral characters, the empty string and the words the reader looks for; weights: signed zero, subnormals, '
              '1.797e308, +-inf, random bit patterns, 25% unweighted; write_graphml_string + write_graphml_file, then read_graphml_string with '
-             'the same specs; non-trivial = at least one edge read back. esc family: strings of 0..8 pieces (markup characters, whitespace, '
+             'the same specs, and read_graphml_file on the written file (must see the same graph); xmlbig: documents of 150-400 KB whose names are dense in 2-, 3- and 4-byte characters, written and read through the file variants; non-trivial = at least one edge read back. esc family: strings of 0..8 pieces (markup characters, whitespace, '
              'multi-byte and boundary code points, 40 entity / character-reference shapes incl. overflow, surrogate, signed and unterminated '
              'ones): quick_xml escape, unescape, unescape(escape(s)), and the crate writing and reading a graph whose node is named s',
         assumptions=COMMON_ASSUME[:2] + ['quick-xml (tokenizer, writer, escaping) and f64 Display/parse are library code: the model starts from '
